@@ -217,7 +217,34 @@ def h16d(e):
     e.sample({"extension": "symbolic", "cutoff": "symbolic (both orders)"})
 
 
-def conc_cell_list(extension, cutoff):
+HIST = [(1.0, 0.5), (1.0, 1.5), (2.5, 1.5), (2.5, 0.5)]
+
+
+def h16e(e):
+    """call histories of get_cell_list on one structure: every call must reach the extension with its own extension and cutoff
+    (a result computed for other arguments must not be handed out)"""
+    first, second = e.pick(HIST), e.pick(HIST)
+    calls = []
+
+    class Ext:
+        def get_cell_list(self, positions, cell, pbc, extension, cutoff):
+            calls.append((float(extension), float(cutoff)))
+            return ("CL", float(extension), float(cutoff))
+    pos, cell, pbc = np.array([[0.0, 0, 0]]), np.eye(3) * 4, np.array([True, False, True])
+    with patched(G, np=NP), patched(G.matid, ext=Ext()):
+        r1 = G.get_cell_list(pos.copy(), cell.copy(), pbc.copy(), first[0], first[1])
+        r2 = G.get_cell_list(pos.copy(), cell.copy(), pbc.copy(), second[0], second[1])
+
+    def cex(env):
+        msgs = conc_cell_list(second[0], second[1], prior=first)
+        return {"key": "H16e:history", "what": f"get_cell_list(extension={second[0]}, cutoff={second[1]}) after get_cell_list(extension={first[0]}, cutoff={first[1]}) on the same structure: " + "; ".join(msgs[:2]),
+                "replay": {"kind": "wrapper", "extension": second[0], "cutoff": second[1], "prior": list(first)}, "reproduced": bool(msgs)}
+    e.post("each call returns a cell list built for its own extension and cutoff", r1 == ("CL",) + first and r2 == ("CL",) + second, cex)
+    e.reach("H16e")
+    e.sample({"first": first, "second": second})
+
+
+def conc_cell_list(extension, cutoff, prior=None):
     """statement-level replay with the shipped extension: a cell list built through the Python wrapper must return, for query
     points in the cell, exactly the periodic images within the cutoff among those within the extension distance of the cell"""
     import itertools
@@ -226,6 +253,8 @@ def conc_cell_list(extension, cutoff):
     pbc = np.array([True, True, False])
     msgs = []
     try:
+        if prior is not None:
+            G.get_cell_list(pos.copy(), cell.copy(), pbc.copy(), prior[0], prior[1])
         cl = G.get_cell_list(pos, cell, pbc, extension, cutoff)
     except Exception as ex:
         return [f"get_cell_list raised {type(ex).__name__}: {ex}"]
@@ -326,13 +355,15 @@ def main(tier, seed, only=None):
         for k in ((0, 1, 2) if tier == "quick" else (0, 1, 2, 3)):
             rep.merge_stats(explore(h16c(k), f"H16c:k{k}", timeout_ms=20000, budget_s=900), "H16c")
         rep.merge_stats(explore(h16d, "H16d", workers=2, timeout_ms=20000, budget_s=300), "H16d")
+        rep.merge_stats(explore(h16e, "H16e", workers=2, timeout_ms=20000, budget_s=300), "H16d")
     if not only:
-        rep.require_reached("H16a:copies", "H16b:neighbours", "H16c:match", "H16c:substitution", "H16c:vacancy", "H16d")
+        rep.require_reached("H16a:copies", "H16b:neighbours", "H16c:match", "H16c:substitution", "H16c:vacancy", "H16d", "H16e")
     rep.bounds = {"H16a": "extend_system: 1 atom (2 for two cells), all three fractional coordinates symbolic in [0,1), symbolic cutoff in (0, cutmax]; cells ortho, tricl, plate, pyth"
                           + ("" if tier == "quick" else ", rot, shear, needle") + " and degenerate cells with 1-3 zero vectors; completeness over omitted offsets within copies+2 (relaxed 3-variable form, strict inequality)",
                   "H16b": "CellList on 1-2 points, one symbolic coordinate per point and query (each axis in turn, others from three fixed grids), cutoff in [1/2,3], query within the points' span widened by one cutoff",
                   "H16c": "get_matches / get_matches_simple with a stub cell list returning <= 2 (3 thorough) neighbours with symbolic distances, symbolic query position and tolerance",
-                  "H16d": "get_cell_list / get_extended_system argument forwarding with symbolic extension and cutoff"}
+                  "H16d": "get_cell_list / get_extended_system argument forwarding with symbolic extension and cutoff",
+                  "H16e": "two consecutive get_cell_list calls on one structure, (extension, cutoff) each from 4 concrete pairs (16 histories)"}
     rep.stubs = ["pybind11 stand-in header", "SymD symbolic scalar", "stub cell list / Atom / ase.geometry.wrap_positions in H16c", "matid.ext recorder in H16d"]
     rep.assumptions = ["exact real arithmetic", "strict form of completeness (an image cell exactly at the cutoff distance is not required)"]
     rep.outside = ["two symbolic axes with two or more points (disc constraints: z3 unknown)", "3 or more points in the CellList harness (one unknown branch condition with 3), more than 2 atoms in extend_system", "floating-point bin-edge effects"]
@@ -353,6 +384,6 @@ def replay(d):
         msgs = conc_matches(**dd)
         return bool(msgs), "; ".join(msgs[:5]) or "ok"
     if d["kind"] == "wrapper":
-        msgs = conc_cell_list(d["extension"], d["cutoff"])
+        msgs = conc_cell_list(d["extension"], d["cutoff"], prior=d.get("prior"))
         return bool(msgs), "; ".join(msgs[:4]) or "ok"
     return False, "unknown replay kind"
